@@ -23,7 +23,34 @@ def make_plan(tape, prop):
     plan["big"] = tape.chance(1, 8)
     plan["overlimit"] = tape.draw(1 << 16)
     plan["single"] = None
+    # the compiler process may have served another schema with the same names before (stale in-process state), and the
+    # schema may be split into an included file and an including file generated in one run
+    plan["stale"] = tape.chance(1, 2)
+    plan["split"] = 1 + tape.draw(8) if tape.chance(1, 3) else 0
+    plan["split_order"] = tape.draw(2)
     return plan
+
+
+_SWAP = {"u8": "u64", "u16": "u32", "u32": "u16", "u64": "u8", "i8": "i64", "i16": "i32", "i32": "i16", "i64": "i8",
+         "r32": "r64", "r64": "r32"}
+
+
+def decoy_schema(schema):
+    """same names, other sizes: what a long-lived compiler process may have seen just before"""
+    import copy
+    d = copy.deepcopy(schema)
+    for x in d["defs"]:
+        if x["k"] == "typedef":
+            x["type"] = _SWAP.get(x["type"], x["type"])
+        elif x["k"] == "union":
+            for a in x["arms"]:
+                a["type"] = _SWAP.get(a["type"], a["type"])
+        elif x["k"] == "struct":
+            sizers = set(m.get("sizer") for m in x["members"])
+            for m in x["members"]:
+                if m["name"] not in sizers:
+                    m["type"] = _SWAP.get(m["type"], m["type"])
+    return d
 
 
 def over_limit(t, tree, code):
@@ -164,17 +191,41 @@ class CppRun(object):
         schema = self.plan["schema"]
         self.R = rt.Resolved(schema)
         self.text = render.prophy_text(schema)
+        if self.plan.get("stale"):
+            f0 = simfs.FakeFS("/w")
+            f0.mkdir("/w/out")
+            f0.put("/w/s.prophy", render.prophy_text(decoy_schema(schema)))
+            simworld.run_prophyc(f0, ["--python_out", "/w/out", "--cpp_full_out", "/w/out", "--cpp_out", "/w/out", "/w/s.prophy"])
+            self.faults["stale-compiler-state"] = 1
         fs = simfs.FakeFS("/w")
         fs.mkdir("/w/out")
-        fs.put("/w/s.prophy", self.text)
-        nodes, exc, so, se = simworld.run_prophyc(fs, ["--python_out", "/w/out", "--cpp_full_out", "/w/out", "/w/s.prophy"])
+        k = self.plan.get("split", 0)
+        ndefs = len(schema["defs"])
+        self.split = bool(k) and ndefs >= 2
+        if self.split:
+            k = 1 + (k - 1) % (ndefs - 1)
+            fs.put("/w/inc.prophy", render.prophy_text({"defs": schema["defs"][:k]}))
+            fs.put("/w/s.prophy", render.prophy_text({"defs": schema["defs"][k:]}, includes=["inc.prophy"]))
+            inputs = ["/w/inc.prophy", "/w/s.prophy"] if self.plan.get("split_order") else ["/w/s.prophy", "/w/inc.prophy"]
+            self.faults["split-into-include-and-main"] = 1
+        else:
+            fs.put("/w/s.prophy", self.text)
+            inputs = ["/w/s.prophy"]
+        nodes, exc, so, se = simworld.run_prophyc(fs, ["--python_out", "/w/out", "--cpp_full_out", "/w/out"] + inputs)
         if exc is not None:
             return self.v("C12", "world", "C12/valid-schema-rejected/%s/%s" % (type(exc).__name__, _msgkey(exc)),
                           "valid schema rejected by prophyc --python_out --cpp_full_out: %s\n%s" % (str(exc)[:300], self.text))
-        self.module = simworld.import_generated({"s": fs.get("/w/out/s.py")})["s"]
+        sources = {"s": fs.get("/w/out/s.py")}
+        extra = []
+        if self.split:
+            sources["inc"] = fs.get("/w/out/inc.py")
+            extra = [("inc", fs.get("/w/out/inc.ppf.hpp"), fs.get("/w/out/inc.ppf.cpp"))]
+        mods = simworld.import_generated(sources, want=["s"])
+        self.module = mods["s"]
+        self.modules = mods
         self.nodes = nodes["s"]
         try:
-            self.peer = peers.Peer("s", fs.get("/w/out/s.ppf.hpp"), fs.get("/w/out/s.ppf.cpp"), schema, self.R)
+            self.peer = peers.Peer("s", fs.get("/w/out/s.ppf.hpp"), fs.get("/w/out/s.ppf.cpp"), schema, self.R, extra=extra)
         except peers.BuildFailed as e:
             return self.v("C12", "cpp-build", "C12/cpp-full-does-not-compile/%s" % _cxx_key(str(e)),
                           "generated C++ full codec does not compile:\n%s\n%s" % (str(e)[:1500], self.text))
@@ -182,6 +233,9 @@ class CppRun(object):
         return None
 
     def cls(self, name):
+        for m in self.modules.values():
+            if name in m.__dict__:
+                return m.__dict__[name]
         return getattr(self.module, name)
 
     # ---- peer requests
@@ -247,7 +301,8 @@ class CppRun(object):
             for ti, name in enumerate(self.peer.types):
                 T = self.R.types[name]
                 for vi, vt in enumerate(plan["values"]):
-                    if single and (single["type"] != ti or single["value"] != vi):
+                    if single and (single.get("type_name", name) != name or single["value"] != vi or
+                                   ("type_name" not in single and single["type"] != ti)):
                         continue
                     tree = gv.draw_tree(Tape(replay=vt), T, big_ok=plan.get("big", False))
                     v = self.one_value(ti, T, vi, tree, single)
@@ -295,7 +350,7 @@ class CppRun(object):
                 if rep is None:
                     v = self.v("C07", "sanitizer", "C07/%s/intact" % dead,
                                "sanitizer abort while decoding/echoing the intact %s encoding %s of %s:\n%s" %
-                               (e, E.hex(), T.name, self.peer.last_stderr[-1500:]), {"type": ti, "value": vi, "fault": None})
+                               (e, E.hex(), T.name, self.peer.last_stderr[-1500:]), {"type": ti, "type_name": T.name, "value": vi, "fault": None})
                     if v:
                         return v
                     continue
@@ -305,9 +360,9 @@ class CppRun(object):
                 if not rep["ok"]:
                     return self.v("C03", "rejected-intact", "C03/intact-rejected/%s" % ("alloc" if rep["tag"] == "A" else "false"),
                                   "%s: C++ decode<%s> rejects the canonical encoding %s of %r\n%s" %
-                                  (T.name, e, E.hex(), wtree, self.text), {"type": ti, "value": vi, "fault": None})
+                                  (T.name, e, E.hex(), wtree, self.text), {"type": ti, "type_name": T.name, "value": vi, "fault": None})
                 self.count("intact_accepted")
-                v = self.check_echo(T, rep, e, "intact", E, wtree, {"type": ti, "value": vi, "fault": None})
+                v = self.check_echo(T, rep, e, "intact", E, wtree, {"type": ti, "type_name": T.name, "value": vi, "fault": None})
                 if v:
                     return v
                 vecs[e] = rep["vec"]
@@ -364,7 +419,7 @@ class CppRun(object):
                 where = link.landed_in(wmap, f)
                 self.faults[fk.split(":")[0]] = self.faults.get(fk.split(":")[0], 0) + 1
                 rep, dead = self.ask("D %d %s %s" % (ti, e, F.hex()), "fault")
-                ctx = {"type": ti, "value": vi, "e": e, "fault": f}
+                ctx = {"type": ti, "type_name": T.name, "value": vi, "e": e, "fault": f}
                 if rep is None:
                     v = self.v("C07", "sanitizer", "C07/%s/%s/%s" % (dead, fk, where),
                                "sanitizer abort in %s decode<%s> of %s (fault %r on %s):\n%s\n%s" %
@@ -521,4 +576,8 @@ def simplify_plan(plan, same):
                 plan = cand
         except Exception:
             pass
+        if plan.get("single") and plan["single"].get("type_name"):
+            # every candidate costs one C++ build: a small, bounded structural reduction of the schema
+            from .pymsg import simplify_plan as schema_simplify
+            plan = schema_simplify(dict(plan, msg_name=plan["single"]["type_name"]), same, max_exec=24)
     return plan
